@@ -41,15 +41,22 @@ func runSelftest(prop string) []seedResult {
 			continue
 		}
 		var meta struct {
-			Props []string `json:"properties_checked"`
+			Props  []string `json:"properties_checked"`
+			Result string   `json:"check_result"`
 		}
 		if json.Unmarshal(mb, &meta) != nil {
 			continue
 		}
-		for _, p := range meta.Props {
-			if p == prop {
-				names = append(names, e.Name())
+		// a seed is a sensitivity witness for the property its author was given (the name prefix) and for any
+		// other property whose check was recorded as reporting it; a property that was merely also run is not expected to fire
+		mine := strings.HasPrefix(e.Name(), prop+"-")
+		for _, w := range strings.Fields(meta.Result) {
+			if kv := strings.SplitN(w, ":", 2); len(kv) == 2 && kv[0] == prop && kv[1] != "0" {
+				mine = true
 			}
+		}
+		if mine {
+			names = append(names, e.Name())
 		}
 	}
 	sort.Strings(names)
